@@ -269,6 +269,9 @@ class CompactionFamily(ReorgFamily):
         k['max_hist_row'] = rng.choice([2, 3, 5, 12, 50, None])
         k['line_p'] = 0.0
         k['stall_p'] = 0.0
+        if rng.random() < 0.6:
+            # the wide script pool has script hashes that share their two-byte compaction prefix
+            k['gen_weights'] = dict(wide_pool=True)
         n0 = rng.choice([8, 15, 25, 40])
         k['activation'] = rng.randint(1, n0)
         if k['chunk_size'] < 64:
